@@ -19,10 +19,11 @@ META = {
         "_run_request returns None only when the reply body is empty; C06.5 check_for_errors never modifies the reply it is given "
         "(a second check / access of the same batch item raises again); C06.6 (shared with C08.2) every reply is decoded with the "
         "proxy's own configuration, so an error object's data member is translated (or not) as for any other reply and cannot raise a "
-        "foreign exception type through another object's configuration.; C06.7 (imported C19.3) every reply is reassembled in its own buffer: no data of an earlier, possibly truncated, reply is parsed with the next one C06.9 (imported from C02.6) replies are decoded by json.loads itself (a home-made decoder - raw_decode, pre-processing - would accept bodies that are not JSON texts and return a value where an error is due). C06.10 (imported from C01.4 / C17.3) the i-th access of a MultiCall result is applied to the i-th reply of the batch as received (no re-ordering or matching by id, which drops replies whose id is null), and the reply body is accumulated raw and decoded once. C06.11 MultiCallIterator keeps the list of replies it is given, as given (`self.results = results`), and MultiCall hands it the decoded reply of its own exchange: no filtering, matching by id or re-ordering stands between the replies and their access (an error reply with a null id would otherwise be dropped or shifted)."),
+        "foreign exception type through another object's configuration.; C06.7 (imported C19.3) every reply is reassembled in its own buffer: no data of an earlier, possibly truncated, reply is parsed with the next one C06.9 (imported from C02.6) replies are decoded by json.loads itself (a home-made decoder - raw_decode, pre-processing - would accept bodies that are not JSON texts and return a value where an error is due). C06.10 (imported from C01.4 / C17.3) the i-th access of a MultiCall result is applied to the i-th reply of the batch as received (no re-ordering or matching by id, which drops replies whose id is null), and the reply body is accumulated raw and decoded once. C06.11 MultiCallIterator keeps the list of replies it is given, as given (`self.results = results`), and MultiCall hands it the decoded reply of its own exchange: no filtering, matching by id or re-ordering stands between the replies and their access (an error reply with a null id would otherwise be dropped or shifted). C06.12 (imported from C19.5) a non-200 reply is drained completely (read() without a size, under the Content-Length test) before the TransportError is raised: a remainder left on the kept-alive connection would make the next call fail with an http.client state error instead of the error the server reports."),
     "does_not_decide": "nothing value-level beyond the comparisons; envelope-level rejections raised before the error "
                        "branch (non-dict reply, jsonrpc > 2.0) are outside the property's domain.",
-    "rules": {"C06.11": "provenance of the stored reply list",
+    "rules": {"C06.12": "imported C19.5 (drain of a non-200 reply)",
+              "C06.11": "provenance of the stored reply list",
               "C06.10": "imported C01.4 (batch accessor), C17.3 (raw accumulation, one decode)",
               "C06.9": "imported C02.6 (backend options, loader)",
               "C06.7": "imported C19.3", "C06.1": "E4 may-raise analysis restricted to the region dominated by the truthy error member",
@@ -307,8 +308,22 @@ def check(ck):
     st611 = [n for n in gmi.live_nodes() if n.kind == "stmt" and isinstance(n.ast, ast.Assign) and any(dump(t) == "self.results" for t in n.ast.targets)]
     if not st611:
         raise AnalysisError("anchor vanished: self.results store in MultiCallIterator.__init__")
+    frq = prog.func("jsonrpc", "MultiCall._request")
+    for c_ in [x for x in ast.walk(frq.node) if isinstance(x, ast.Call) and isinstance(x.func, ast.Attribute) and
+               x.func.attr in ("sort", "reverse", "pop", "remove", "insert", "clear", "extend") and isinstance(x.func.value, ast.Name)]:
+        if x_ := [n_ for n_ in ast.walk(frq.node) if isinstance(n_, ast.Assign) and any(isinstance(t_, ast.Name) and t_.id == c_.func.value.id for t_ in n_.targets)
+                  and "_run_request" in dump(n_.value)]:
+            ck.bad("C06.11", "%s: `%s`" % (q.fn(frq), dump(c_)[:50]),
+                   "the list of replies is modified in place (`%s`) before it is handed to the iterator: the i-th access no longer meets "
+                   "the i-th reply as sent (and ordering null ids against numbers raises TypeError, losing the whole batch)" % dump(c_)[:50],
+                   q.loc(frq, c_))
     for n in st611:
         alts = _prov611.value_alts(_prov611.origin(gmi, n, n.ast.value))
         ck.require(alts == set([("param", "results")]), "C06.11", "%s: `%s`" % (q.fn(fmi), q.stmt_text(n)), "the replies as given",
                    "the iterator stores %s instead of the list of replies it is given: replies are filtered / matched / re-ordered before "
                    "they are checked for errors" % sorted(_prov611.show(a)[:40] for a in alts), q.loc(fmi, n))
+
+    # ---- C06.12 the error page is drained (shared with C19.5) ------------------------------------------------------------------
+    from rules import c19 as _c19d, common as _cm612
+    _cm612.import_rules(ck, _c19d, {"C19.5": "C06.12"})
+    ck.floor("C06.12", 2)
